@@ -59,6 +59,7 @@ def run_sequence(channel, seq, seed, units=None, rig_factory=None, keep_units=Tr
             else:
                 unit = r.gen(cls, variants[i] if variants else None)
                 labels.append(r.last_label)
+            r.begin_unit(cls)
             disc = r.disc_of(cls, unit)
             txn = bool(cls == "advance" or r.starts_txn(unit))
             r.txn_open = r.txn_open or txn
